@@ -12,7 +12,8 @@ _EASY = ["nl-writer2/src/nl-solver.cc", "nl-writer2/src/nl-utils.cc", "nl-writer
 
 TARGETS = {
     "h_solrt": lambda: build("h_solrt", _SOLW + _SOLR, "asan", harness_srcs=["h_solrt.cc"]),
-    "h_solread": lambda: build("h_solread", _SOLW + ["nl-writer2/src/nl-solver.cc", "nl-writer2/src/nl-utils.cc", "nl-writer2/src/nl-writer2.cc", "nl-writer2/src/dtoa.cc"],
+    "h_solread": lambda: build("h_solread", _SOLW + ["nl-writer2/src/nl-solver.cc", "nl-writer2/src/nl-utils.cc", "nl-writer2/src/nl-writer2.cc", "nl-writer2/src/dtoa.cc",
+                                                        "nl-writer2/src/nl-solver-c.cc", "nl-writer2/src/nl-model-c.cc"],
                                "asan", harness_srcs=["h_solread.cc"]),
     "h_easy": lambda: build("h_easy", _EASY, "asan", harness_srcs=["h_easy.cc"], libs=["-lstdc++fs"]),
 }
